@@ -63,12 +63,13 @@ DEFAULT = OptSet("default")
 ALL_ON = OptSet("allon", emit_rule_reference=True, box_only_if_needed=True, no_warnings=True, do_not_emit_span=True)
 RAW = OptSet("raw", pest_optimizer=False)
 BOX_ONLY = OptSet("boxonly", box_only_if_needed=True)
+RAW_BOX = OptSet("rawbox", box_only_if_needed=True, pest_optimizer=False)
 
 
 def option_sets(tier, seed):
     if tier == "quick":
         rnd = random.Random(seed ^ 0xC20)
-        sets = [DEFAULT, ALL_ON, RAW, BOX_ONLY]
+        sets = [DEFAULT, ALL_ON, RAW, BOX_ONLY, RAW_BOX]       # reduced boxing is always compiled on both AST paths
         seen = {(s.box, s.ref, s.nospan, s.opt) for s in sets}
         k = 0
         while k < 2:
@@ -102,7 +103,7 @@ def determinism_sets(tier, seed):
              OptSet("refonly", emit_rule_reference=True),
              OptSet("refbox", emit_rule_reference=True, box_only_if_needed=True, do_not_emit_span=True, no_warnings=True),
              OptSet("rawref", emit_rule_reference=True, pest_optimizer=False),
-             OptSet("rawbox", box_only_if_needed=True, pest_optimizer=False, do_not_emit_span=True)]
+             OptSet("rawboxspan", box_only_if_needed=True, pest_optimizer=False, do_not_emit_span=True)]
     base = option_sets(tier, seed)
     names = {s.name for s in base}
     return base + [e for e in extra if e.name not in names]
@@ -197,6 +198,12 @@ def opt_probe_grammars():
     add("o_lister", 'r = { ("a" ~ "b")* ~ "a" }\nr2 = { (("a" | "c") ~ "b")* ~ ("a" | "c") ~ "d"? }\n')
     add("o_reponce", 'r0 = { (\'a\'..\'b\')+ }\nr1 = { "a"+ ~ "b" }\nr2 = ${ "a"+ }\nr3 = !{ ("a" | "b")+ ~ "c"? }\nWHITESPACE = @{ " " }\n')
     add("o_counted", 'r0 = { "a"{2} }\nr1 = { "a"{1,} }\nr2 = { "a"{,2} }\nr3 = { "a"{1,2} ~ "b"? }\nr4 = @{ "a"{2,3} }\nWHITESPACE = _{ " " }\nCOMMENT = _{ "#" }\n')
+    # every counted form pest_meta accepts with a zero lower bound / zero occurrences (`{0}`, `{,0}`, `{0,0}` are refused by
+    # pest_meta: "cannot repeat 0 times"); no skip rules, so that nothing here is near F-OPT-3
+    add("o_zero", 'item = { "x" }\nlst = { "[" ~ item{0,} ~ "]" }\nsign = { "-"{0,} }\nnum = ${ sign ~ "5" }\n'
+                  'r1 = { "a"{1,} ~ "b" }\nr01 = { "a"{0,1} ~ "b" }\nr2 = { "a"{2} ~ "b" }\nr02 = @{ "a"{0,2} ~ "b" }\n'
+                  'r0n = { ("a" | "b"){0,} ~ "c" }\nr1n = { (item ~ "a"){1,} }\nr3 = { "a"{3,} ~ "b"? }\nrn = { (item{0,}){0,1} ~ "b" }\n')
+    add("o_zero_atomic", 'w = @{ "a"{0,} ~ "b" }\nx = ${ ("a" ~ "a"){0,} ~ "b"{1,} }\ny = !{ "a"{0,} ~ "b"{0,1} ~ "c" }\n')
     add("o_minmax", 'r = { "a"{2,1} ~ "b" }\nr2 = { "a"{3,1} }\nr3 = @{ ("a" | "b"){2,1} ~ "c"? }\n')
     add("o_passes", r'''
 rot = { ("a" ~ "b") ~ ("c" ~ "d") | ("a" | "b") | "c" }
@@ -207,6 +214,23 @@ fac3 = { "a" | "a" ~ "b" }
 skp = @{ (!("x" | "yz") ~ ANY)* ~ "x" }
 rst = { (PUSH("a") ~ "b")? ~ (PUSH("c") | "a") ~ (PUSH("a") ~ "z")* }
 ''')
+    return gs
+
+
+def documented_grammars():
+    """Grammars with `//!` grammar docs and `///` rule docs: the generator keeps rule docs in a `HashMap`
+    (`docs.rs: DocComment.line_docs`), the only hash-ordered container of the generator; enough documented rules that
+    an iteration over it would show a process-dependent order."""
+    gs = []
+    rules = []
+    names = ["alpha", "beta", "gamma", "delta", "epsilon", "zeta", "eta", "theta", "iota", "kappa", "lambda", "mu"]
+    for k, n in enumerate(names):
+        nxt = names[(k + 1) % len(names)]
+        body = f'"{chr(97 + k)}" ~ {nxt}?' if k % 3 else f'"{chr(97 + k)}"{{1,2}} | "{chr(65 + k)}"+'
+        rules.append(f"/// The rule `{n}`: documented, line 1.\n/// Second doc line of {n} with \"quotes\" and a back\\slash.\n{n} = {{ {body} }}")
+    gs.append({"gid": "d_docs", "text": "//! Grammar level documentation.\n//! Second line of the grammar doc.\n\n" + "\n".join(rules) +
+               "\n/// Skips blanks.\nWHITESPACE = _{ \" \" }\n"})
+    gs.append({"gid": "d_docs_partial", "text": "//! Only some rules are documented.\n/// first\nr0 = { \"a\" ~ r1* }\nr1 = @{ \"b\"{2} }\n/// third\nr2 = ${ r0 | r1 }\n"})
     return gs
 
 
@@ -309,7 +333,7 @@ def corpus_grammars(tier, seed):
         sysg += [g for g in corpus.systematic_grammars() if g["gid"] == "s_kinds_w"]
     nrand = 40 if tier == "quick" else 80
     nrec = 40 if tier == "quick" else 120
-    gs = recursive_grammars() + cycle_family(tier, seed) + opt_probe_grammars() + sysg
+    gs = recursive_grammars() + cycle_family(tier, seed) + opt_probe_grammars() + documented_grammars() + sysg
     gs += corpus.random_grammars(seed, nrand)
     gs += [dict(g, gid=g["gid"].replace("g", "rec", 1)) for g in corpus.random_grammars(seed + 1, nrec, modes=("recursive",))]
     return gs
@@ -362,6 +386,46 @@ def strip_boxing(stream):
     getters' `& * self . content` / `& self . content`."""
     s = RULE_TAIL.sub(lambda m: f", {m.group(1)} , {m.group(2)} , BOXED) ; impl <", stream)
     return s.replace("let res = & * self . content ;", "let res = CONTENT ;").replace("let res = & self . content ;", "let res = CONTENT ;")
+
+
+def storage_diff(a, b, limit=3):
+    """Token-wise comparison of two token streams that may differ in the storage decision only.  Allowed differences:
+    a `true` / `false` literal against the other one (the `$boxed` argument of `rule!`), and a dereference `*` that one
+    side has directly after `&` (`&*self.content` against `&self.content`).  Returns the list of the first other
+    differences (empty = equal up to storage); independent of local variable names, item order and argument counts."""
+    ta, tb = a.split(" "), b.split(" ")
+    i = j = 0
+    out = []
+    while i < len(ta) and j < len(tb):
+        x, y = ta[i], tb[j]
+        if x == y:
+            i += 1; j += 1
+        elif {x, y} == {"true", "false"}:
+            i += 1; j += 1
+        elif x == "*" and i > 0 and ta[i - 1] == "&" and i + 1 < len(ta) and ta[i + 1] == y:
+            i += 1
+        elif y == "*" and j > 0 and tb[j - 1] == "&" and j + 1 < len(tb) and tb[j + 1] == x:
+            j += 1
+        else:
+            out.append({"at": i, "left": " ".join(ta[max(0, i - 6):i + 6]), "right": " ".join(tb[max(0, j - 6):j + 6])})
+            if len(out) >= limit:
+                return out
+            i += 1; j += 1
+    if (len(ta) - i) != (len(tb) - j) and len(out) < limit:
+        out.append({"at": i, "left": f"{len(ta) - i} tokens left", "right": f"{len(tb) - j} tokens left"})
+    return out
+
+
+def accessor_names(stream):
+    """{rule: [accessor function names]} read off the `impl<'i, const INHERITED: usize> rule<'i, INHERITED> { … }` block that
+    follows every `rule!` invocation."""
+    res = {}
+    for chunk in stream.split(RULE_SPLIT)[1:]:
+        name = chunk.split(" ", 1)[0]
+        if name.startswith("r#"):
+            name = name[2:]
+        res[name] = re.findall(r"pub fn (?:r#)?(\w+) < 's > \(& 's self\)", chunk)
+    return res
 
 
 # ---------------------------------------------------------------------------------------------
